@@ -40,6 +40,10 @@ def specs(tier):
             out.append({'mech': 'mwem', 'eps': eps, 'delta': delta, 'noise': noise, 'bounded': bounded, 'rounds': rounds, 'alpha': alpha})
         if tier == 'quick':
             out.append({'mech': 'mwem', 'eps': eps, 'delta': delta, 'noise': 'gaussian', 'bounded': False, 'rounds': 2, 'alpha': 0.5})
+        # budget fractions that are each <= 1 but do not sum to 1 (the mechanism normalises them)
+        out.append({'mech': 'adagrid', 'eps': eps, 'delta': delta, 'targets': [], 'split': [0.5, 0.25, 0.5], 'threshold': 5.0})
+        # MWEM with a workload that leaves attribute C unmentioned
+        out.append({'mech': 'mwem', 'eps': eps, 'delta': delta, 'noise': 'gaussian', 'bounded': False, 'rounds': 2, 'alpha': 0.9, 'workload': [['A', 'B']]})
         for targets, split, thr in itertools.product([[], ['C']], [None, [0.1, 0.1, 0.8]], [5.0, 0.5]):
             if tier == 'quick' and (split is None) != (thr == 5.0):
                 continue
